@@ -25,6 +25,7 @@ func runC17(c *Ctx) {
 	runC17Protocol(c)
 	runC17Followup(c)
 	runC17Cancelled(c)
+	runC17Keeper(c)
 }
 
 // ---- (c) two branches prepared over one pooled connection, then phase two for each: every phase-two
@@ -54,6 +55,7 @@ func runC17Two(c *Ctx) {
 		} else {
 			xa.SetMaxIdleConns(2)
 		}
+		sessions0 := w.Eng.SessionCount()
 		table := w.NewTableName("xa2")
 		w.Eng.CreateTable(memdb.TableDef{Name: table, Cols: []memdb.Column{{Name: "id", Type: memdb.TBigInt}, {Name: "n", Type: memdb.TBigInt, Nullable: true}}, PK: []string{"id"}})
 		w.Eng.InsertRows(table, memdb.Row{int64(1), int64(0)}, memdb.Row{int64(2), int64(0)})
@@ -73,7 +75,7 @@ func runC17Two(c *Ctx) {
 					if cerr != nil {
 						panic(cerr)
 					}
-					defer conn.Close()
+					defer closeSoon(conn)
 					db = conn
 				}
 				for k := 0; k < 2; k++ {
@@ -233,6 +235,11 @@ func runC17Two(c *Ctx) {
 		}
 		if len(kept) > 0 {
 			fail("finished_branch_still_kept", fmt.Sprintf("both branches went through phase two, the resource still keeps a connection for %v", kept))
+		}
+		if i%4 == 1 && errs[0] == nil && errs[1] == nil && sessionsAfter > sessions0 {
+			// (the pool keeps no idle connection in this case: database/sql closed each connection when its statement
+			// was over, the sessions were kept open for phase two only)
+			fail("kept_connection_never_closed", fmt.Sprintf("%d connections to the database before the transaction, %d after both branches went through phase two", sessions0, sessionsAfter))
 		}
 		if !during && errs[0] == nil && errs[1] == nil && sessionsAfter > sessionsBefore {
 			fail("phase_two_opened_a_connection", fmt.Sprintf("%d connections before phase two, %d after: a prepared branch whose connection is kept is finished on that connection", sessionsBefore, sessionsAfter))
